@@ -104,6 +104,31 @@ class Res(object):
 
 
 @_portable
+def exc_id():
+    """
+    '<ExceptionType>@<module>.<function>' of the exception being handled, the function being the innermost frame that
+    lies in the project tree (stable: no line numbers, no message), so that two different failures of the same
+    contract get different case classes.
+    """
+    et, ev, tb = sys.exc_info()
+    where = "?"
+    for fs in traceback.extract_tb(tb):
+        if os.path.abspath(fs.filename).startswith(os.path.abspath(REPO) + os.sep):
+            where = "%s.%s" % (os.path.splitext(os.path.basename(fs.filename))[0], fs.name)
+    name = getattr(et, "__name__", "?")
+    if where == "?":
+        # 'python -m kconfgen' failed: run_main() put the tail of the child's traceback into the message
+        text = str(ev)
+        for m in re.finditer(r'File "([^"]+)", line \d+, in (\S+)', text):
+            if os.path.abspath(m.group(1)).startswith(os.path.abspath(REPO) + os.sep):
+                where = "%s.%s" % (os.path.splitext(os.path.basename(m.group(1)))[0], m.group(2))
+        m = re.search(r"^([A-Za-z_][A-Za-z0-9_.]*(?:Error|Exception)):", text, re.M)
+        if m and where != "?":
+            name = m.group(1).split(".")[-1]
+    return "%s@%s" % (name, where)
+
+
+@_portable
 def scrub_env():
     for n in ENV_VARS:
         os.environ.pop(n, None)
@@ -309,7 +334,9 @@ def read_sdkconfig(text, types, alias_types):
 def read_header(text, types, alias_types):
     """
     C header as the preprocessor sees it.  -> (options, aliases); an alias '#define CONFIG_OLD [!]CONFIG_NEW'
-    takes the value of CONFIG_NEW in this same header (undefined -> not defined / n), '!' negates a bool.
+    takes the value of CONFIG_NEW in this same header, '!' negates a bool.  A plain alias of a name that is not
+    defined expands to an undefined identifier (not defined / n for the build); the documented inverted form
+    '!CONFIG_NEW' with CONFIG_NEW not defined is '!0' = 1 for the preprocessor, i.e. y, when the alias is a bool.
     """
     main, links = {}, []
     for line in text.split("\n"):
@@ -333,7 +360,9 @@ def read_header(text, types, alias_types):
     for name, target, inv in links:
         vals = main.get(target)
         if not vals:
-            continue  # expands to an undefined identifier: not defined for the build
+            if inv and alias_types.get(name) == "bool":
+                multi_add(dep, name, "y")  # '#if !CONFIG_NEW' with CONFIG_NEW undefined: true
+            continue  # plain: expands to an undefined identifier: not defined for the build
         for v in vals:
             if inv:
                 v = "n" if v == "y" else ("bad", "!" + repr(v))
@@ -597,7 +626,7 @@ def replay_c07(case):
                                           ("json", "sdkconfig.json"), ("cdep_tree", "deps")))
                     run_main(args, main_env(src, case["renames"], case["pv"]), subproc=(flow == "subproc"))
             except Exception:
-                res.bad("exception:c07-%s" % flow, "no exception while generating the outputs of a well-formed tree",
+                res.bad("exception:c07-%s:%s" % (flow, exc_id()), "no exception while generating the outputs of a well-formed tree",
                         "%s: %s" % (tag, traceback.format_exc()[-900:]))
                 break
             texts = {}
@@ -1011,7 +1040,7 @@ def replay_c12(case):
                 kc = fresh(i)
                 cur_bv = bv_map(kc)
             except Exception:
-                res.bad("exception:c12-setup", "well-formed tree loads", "%s: %s" % (tag, traceback.format_exc()[-600:]))
+                res.bad("exception:c12-setup:" + exc_id(), "well-formed tree loads", "%s: %s" % (tag, traceback.format_exc()[-600:]))
                 break
             reasons = changed_names(prev_bv, cur_bv, alias)
             exp_paths = dict((cdep_path(n), n) for n in reasons)
@@ -1020,7 +1049,7 @@ def replay_c12(case):
             try:
                 kc.sync_deps(D)
             except Exception:
-                res.bad("exception:sync_deps", "sync_deps raises nothing on a well-formed tree", "%s: %s" % (tag, traceback.format_exc()[-600:]))
+                res.bad("exception:sync_deps:" + exc_id(), "sync_deps raises nothing on a well-formed tree", "%s: %s" % (tag, traceback.format_exc()[-600:]))
                 break
             touched = touched_cdeps(D)
             res.evals += 1
@@ -1046,7 +1075,7 @@ def replay_c12(case):
             try:
                 fresh(i).sync_deps(D)
             except Exception:
-                res.bad("exception:sync_deps-repeat", "sync_deps: repeated sync is idle", "%s: %s" % (tag, traceback.format_exc()[-600:]))
+                res.bad("exception:sync_deps-repeat:" + exc_id(), "sync_deps: repeated sync is idle", "%s: %s" % (tag, traceback.format_exc()[-600:]))
                 break
             res.evals += 1
             t2 = touched_cdeps(D)
@@ -1102,7 +1131,7 @@ def c12_crash(res, case, tag, i, fresh, X, before, exp_paths, reasons, ref_autoc
             try:
                 fresh(j).sync_deps(X)
             except Exception:
-                res.bad("exception:sync_deps-%s-after-crash" % variant, "sync_deps: interrupted + rerun loses no trigger",
+                res.bad("exception:sync_deps-%s-after-crash:%s" % (variant, exc_id()), "sync_deps: interrupted + rerun loses no trigger",
                         "%s: died at [%s]; the %s sync raises: %s" % (tag, plan[-1], variant, traceback.format_exc()[-500:]))
                 continue
             touched = touched_cdeps(X)
@@ -1120,7 +1149,7 @@ def c12_crash(res, case, tag, i, fresh, X, before, exp_paths, reasons, ref_autoc
             try:
                 fresh(i).sync_deps(X)
             except Exception:
-                res.bad("exception:sync_deps-idle-after-crash", "sync_deps: interrupted + rerun loses no trigger", "%s plan %r: %s" % (tag, plan, traceback.format_exc()[-500:]))
+                res.bad("exception:sync_deps-idle-after-crash:" + exc_id(), "sync_deps: interrupted + rerun loses no trigger", "%s plan %r: %s" % (tag, plan, traceback.format_exc()[-500:]))
                 continue
             t3 = touched_cdeps(X)
             if t3:
@@ -1203,7 +1232,7 @@ def c13_notouch(res, case):
                 F = os.path.join(top, "fresh%d" % gi)
                 c13_generate(case, gi, src, F, sub)
             except Exception:
-                res.bad("exception:c13-%s" % flow, "outputs are generated without exception", "%s: %s" % (tag, traceback.format_exc()[-800:]))
+                res.bad("exception:c13-%s:%s" % (flow, exc_id()), "outputs are generated without exception", "%s: %s" % (tag, traceback.format_exc()[-800:]))
                 return
             for f in outs:
                 a, b = rd(os.path.join(D, f)), rd(os.path.join(F, f))
@@ -1219,7 +1248,7 @@ def c13_notouch(res, case):
             try:
                 c13_generate(case, gi, src, D, sub)
             except Exception:
-                res.bad("exception:c13-%s-regen" % flow, "outputs are generated without exception", "%s: %s" % (tag, traceback.format_exc()[-800:]))
+                res.bad("exception:c13-%s-regen:%s" % (flow, exc_id()), "outputs are generated without exception", "%s: %s" % (tag, traceback.format_exc()[-800:]))
                 return
             s2 = stat_dir(D)
             for rel in sorted(set(s1) | set(s2)):
@@ -1262,7 +1291,7 @@ def c13_uic(res, case):
             try:
                 KG.update_if_changed(srcp, dst, "utf-8")
             except Exception:
-                res.bad("exception:update_if_changed", "update_if_changed", "pair %d %r: %s" % (k, (dst_text, src_text), traceback.format_exc()[-500:]))
+                res.bad("exception:update_if_changed:" + exc_id(), "update_if_changed", "pair %d %r: %s" % (k, (dst_text, src_text), traceback.format_exc()[-500:]))
                 continue
             after = os.stat(dst)
             if rd(dst) != src_text.encode("utf-8"):
@@ -1295,7 +1324,7 @@ def c13_save(res, case):
             PREV, NEW = both
             kcB = kc
         except Exception:
-            res.bad("exception:c13-save-setup", "write_config", "%s: %s" % (tag, traceback.format_exc()[-600:]))
+            res.bad("exception:c13-save-setup:" + exc_id(), "write_config", "%s: %s" % (tag, traceback.format_exc()[-600:]))
             return
         if PREV == NEW:
             return
